@@ -33,7 +33,7 @@ const maxTxnRetries = 64
 // here and not in the client.
 func (b *embeddedBackend) update(fn func(txn *NoKV.Txn) error) error {
 	var err error
-	for range maxTxnRetries {
+	for range txnRetryLimit() {
 		if err = b.db.Update(fn); !errors.Is(err, utils.ErrConflict) {
 			return err
 		}
